@@ -118,7 +118,12 @@ pub fn history(data: &[u8], explain: bool) -> Result<(), Violation> {
     if data.len() < 3 {
         return Ok(());
     }
-    let (property, variant) = HIST_VARIANTS[data[0] as usize % HIST_VARIANTS.len()];
+    // FCVERIF_FUZZ_PROP pins the configuration (the driver fuzzes one property at a time)
+    let forced = std::env::var("FCVERIF_FUZZ_PROP").ok();
+    let (property, variant) = match forced.as_deref().and_then(|f| HIST_VARIANTS.iter().find(|(p, _)| *p == f)) {
+        Some(pv) => *pv,
+        None => HIST_VARIANTS[data[0] as usize % HIST_VARIANTS.len()],
+    };
     let mut c = Count { property, n: 0 };
     catalogue::all(&mut c);
     if c.n == 0 {
@@ -196,7 +201,12 @@ pub fn stack(data: &[u8], explain: bool) -> Result<(), Violation> {
     if data.len() < 3 {
         return Ok(());
     }
-    let property = ["C03", "C08", "C09", "C10", "C16", "C18", "C19"][data[0] as usize % 7];
+    const STACK_PROPS: [&str; 8] = ["C03", "C02", "C08", "C09", "C10", "C16", "C18", "C19"];
+    let forced = std::env::var("FCVERIF_FUZZ_PROP").ok();
+    let property = match forced.as_deref().and_then(|f| STACK_PROPS.iter().find(|p| **p == f)) {
+        Some(p) => *p,
+        None => STACK_PROPS[data[0] as usize % STACK_PROPS.len()],
+    };
     let mut c = StackCount(0);
     catalogue::stacks(&mut c);
     let mut p = StackPick { property, target: data[1] as usize % c.0.max(1), seen: 0, tape: &data[2..], explain, result: None };
